@@ -29,6 +29,10 @@ pub struct Cycle {
     pub post: Vec<(u8, u8)>,
     /// open the next store before waiting for the old worker to exit
     pub reopen_at_once: bool,
+    /// right before the drop, run one merge pass that fails half-way (transient ENOSPC when it
+    /// creates its hint file), so that the writer is left with unfinished business
+    #[serde(default)]
+    pub failed_merge_before_drop: bool,
 }
 
 #[derive(Clone, Debug, Serialize, Deserialize)]
@@ -51,13 +55,15 @@ fn strategy(tier: Tier) -> BoxedStrategy<CloseCase> {
         prop_oneof![3 => Just(0u32), 3 => 1u32..3000, 2 => 3000u32..30000],
         proptest::collection::vec((prop_oneof![2 => Just(0u8), 4 => Just(1u8), 2 => Just(2u8), 1 => Just(3u8)], any::<u8>()), 1..12),
         any::<bool>(),
+        prop_oneof![3 => Just(false), 1 => Just(true)],
     )
-        .prop_map(|(prefix, clones, drop_delay_us, post, reopen_at_once)| Cycle {
+        .prop_map(|(prefix, clones, drop_delay_us, post, reopen_at_once, failed_merge_before_drop)| Cycle {
             prefix,
             clones,
             drop_delay_us,
             post,
             reopen_at_once,
+            failed_merge_before_drop,
         });
     (
         any::<bool>(),
@@ -247,6 +253,30 @@ fn exec(c: &CloseCase, env: &Env) -> Outcome {
         for _ in 0..cy.clones {
             handles.push(handles[0].clone());
         }
+        if cy.failed_merge_before_drop && !c.policy_always {
+            // (only without timer-driven merges, which would consume the armed fault)
+            crate::shim::register(&env.scratch);
+            crate::shim::inject_arm_hint_create(0, libc::ENOSPC);
+            let hh = handles[0].clone();
+            let r = catch(move || hh.verif_merge());
+            let fired = crate::shim::inject_disarm();
+            match (r, fired) {
+                (Ok(Err(_)), Some(_)) => out.label("merge-failed-half-way-before-the-drop"),
+                (Ok(Ok(())), None) => {}
+                (Ok(Ok(())), Some(_)) => {
+                    fail = Some(("fault-swallowed".into(), format!("cycle {}: a merge pass succeeded although creating its hint file failed", ci)));
+                    break;
+                }
+                (Err(p), _) => {
+                    fail = Some(("merge-panicked".into(), format!("cycle {}: {}", ci, p)));
+                    break;
+                }
+                (Ok(Err(e)), None) => {
+                    fail = Some(("merge-error".into(), format!("cycle {}: merge failed without a fault: {}", ci, e)));
+                    break;
+                }
+            }
+        }
         if cy.drop_delay_us > 0 {
             std::thread::sleep(Duration::from_micros(cy.drop_delay_us as u64));
         }
@@ -385,12 +415,12 @@ pub fn prop() -> Prop<CloseCase> {
     Prop {
         id: "C17",
         level: "exploration",
-        rule: "Cases: a configuration (merge policy always/never with triggers that the history exceeds, check interval 1 ms .. 1 h, jitter 0-1, sync none/always/interval 5-100 ms, small max_file_size) and 1-8 (30 thorough) open/close cycles; each cycle runs generated sets/deletes, takes 0-3 handle clones, drops the store object after a generated delay (0-30 ms, so the worker is sleeping, about to merge, merging or syncing), then applies generated set/get/del/merge through the remaining handles. Oracles: every such op returns Error::Closed; the worker thread disappears (thread count back to baseline and no thread named bitcask-background-tasks) within 5 s even with a timer an hour away; once it is gone a fingerprint of the directory (names, sizes, content hashes) is identical before and after another round of post-drop ops; the directory reopens (at once, before the old worker has exited, where no merge can be in flight) and reads as the model; after all cycles and dropping all handles, thread and open-file counts equal the baseline. Non-trivial: a cycle with set, get and del after the drop and a timer >= 60 s away; distinct = distinct hash of the case.",
+        rule: "Cases: a configuration (merge policy always/never with triggers that the history exceeds, check interval 1 ms .. 1 h, jitter 0-1, sync none/always/interval 5-100 ms, small max_file_size) and 1-8 (30 thorough) open/close cycles; each cycle runs generated sets/deletes, takes 0-3 handle clones, in a quarter of the cycles (policy never) first runs one merge pass that fails half-way through an injected transient ENOSPC, drops the store object after a generated delay (0-30 ms, so the worker is sleeping, about to merge, merging or syncing), then applies generated set/get/del/merge through the remaining handles. Oracles: every such op returns Error::Closed; the worker thread disappears (thread count back to baseline and no thread named bitcask-background-tasks) within 5 s even with a timer an hour away; once it is gone a fingerprint of the directory (names, sizes, content hashes) is identical before and after another round of post-drop ops; the directory reopens (at once, before the old worker has exited, where no merge can be in flight) and reads as the model; after all cycles and dropping all handles, thread and open-file counts equal the baseline. Non-trivial: a cycle with set, get and del after the drop and a timer >= 60 s away; distinct = distinct hash of the case.",
         assumptions: &[
             "reopening at once is asserted only where no merge can be in flight at the drop (policy never, or the timer far away): the property lists sleeping, about to merge and syncing as the drop moments; otherwise the old worker is awaited before the reopen",
             "5 s bounds for thread exit; the fd/thread baseline is taken in the same process right before the case",
         ],
-        needs_shim: false,
+        needs_shim: true,
         budget: |t| t.pick(4800, 60000),
         shards: |_| 16,
         strategy,
